@@ -12,7 +12,11 @@ from .loader import shape_error
 
 
 _BUILTIN_NAMES = {'float': float, 'int': int, 'bool': bool, 'str': str, 'list': list, 'tuple': tuple, 'dict': dict, 'set': set,
-                  'None': None, 'True': True, 'False': False}
+                  'None': None, 'True': True, 'False': False,
+                  # builtin functions taken as values (passed along, compared with a constant): the Python objects themselves
+                  'max': max, 'min': min, 'abs': abs, 'len': len, 'sum': sum, 'sorted': sorted, 'round': round, 'any': any, 'all': all,
+                  'repr': repr, 'id': id, 'hash': hash, 'type': type, 'object': object, 'range': range, 'zip': zip, 'enumerate': enumerate,
+                  'NotImplemented': NotImplemented, 'Ellipsis': Ellipsis}
 
 
 _MISSING = object()
